@@ -288,6 +288,9 @@ def family_cb_special(tier, seed, n=None):
         world = {"classes": {"Base": base, "Der": der, "Top": top},
                  "population": [{"id": "o1", "cls": "Top"}, {"id": "d0", "cls": "Der"}]}
         ops = [{"op": "construct", "o": "o1"}, {"op": "construct", "o": "d0"}]
+        if t % 2 == 1:
+            # an element of the random object list is replaced by index assignment: the new object is a random element like any
+            ops += [{"op": "call", "call": mcall("o1")}, {"op": "ol_setitem", "p": "o1.dl", "i": t % 4 // 2, "plain": True}]
         kv = 0
         for i in range(rnd.randint(4, 6)):
             r = rnd.random()
